@@ -222,7 +222,7 @@ class FuncView:
                 res.append((None, None))
         return res
 
-    def value_at(self, expr, use_ast, depth=4):
+    def value_at(self, expr, use_ast, depth=4, keep=()):
         ''' Inline local names by their unique reaching definition at use_ast. '''
         import copy
         fv = self
@@ -231,11 +231,11 @@ class FuncView:
 
         class Sub(ast.NodeTransformer):
             def visit_Name(self, node):
-                if not isinstance(node.ctx, ast.Load):
+                if not isinstance(node.ctx, ast.Load) or node.id in keep:
                     return node
                 rd = fv.reaching_defs(node.id, use_ast)
                 if len(rd) == 1 and rd[0][1] is not None and isinstance(rd[0][1], ast.expr):
-                    return fv.value_at(copy.deepcopy(rd[0][1]), rd[0][0], depth - 1)
+                    return fv.value_at(copy.deepcopy(rd[0][1]), rd[0][0], depth - 1, keep)
                 return node
 
             def visit_Lambda(self, node):
